@@ -26,7 +26,8 @@ EXPLANATION = (
     "stored root; R02.7 the closed forms of the spherical geometry modulo algebra: law of cosines for theta_S and "
     "theta_N,V, spherical law of cosines for theta_Tr,N, beta = 90 deg - angle to the vertical, and the ground "
     "spot as the standard ENU->ECEF image of the spot direction (arcsin / arctan2 forms valid on the whole "
-    "sphere). NOT decided: exactness of the inverse CDF, ground spot at exactly that distance, beta "
+    "sphere); R02.9 after a second throw on the same object every accessor and the point along the trajectory "
+    "describe the second throw only (no memoised answer of the first). NOT decided: exactness of the inverse CDF, ground spot at exactly that distance, beta "
     "from explicit vectors, positions at s>0 (numerical geometry)."
 )
 
@@ -162,6 +163,61 @@ def run(ck, ctx):
                   r.value, fnq, f"searched {len(cone)} quantities of the function",
                   construct=f"{fnq}: component {what.split(' ')[0]} of R n + s t")
     ck.guard(along, "R02.8")
+
+    # ---------------------------------------------------------------- R02.9 a second throw on the same object
+    def rethrow():
+        """History: throw, read every accessor (and the point along the trajectory), throw again with other random
+        numbers, read again.  What is read after the second throw describes the second throw - every member of the
+        accessor family and the point along the trajectory depend on the second draw only (an accessor memoised on the
+        object would keep answering with the first throw's events)."""
+        from ..facets.dep import Dep
+        D2 = DiffuseGeom(ctx, explicit_u=True)
+        J = D2.I
+        gj = J.g
+
+        def read(acc, st_):
+            if J.find_method(D2.ci, acc) is not None:
+                return J.run_method(D2.obj, acc, [], st=st_)
+            try:
+                v = J.load_attr(D2.obj, acc, st_, None, None)
+            except Exception:       # noqa: BLE001
+                return None
+            if v.op == "BoundMethod" and v.args[1].op in ("Func", "Closure"):
+                return J.run(v.args[1], [v.args[0]], st=st_)
+            return None
+        accs = [a for a in ACCESSORS if read(a, D2.st) is not None]
+        s1 = J.input("distance along the trajectory (first)", kind="array")
+        J.run_method(D2.obj, "find_lat_long_along_traj", [s1], st=D2.st)
+        u2 = J.input("u of the second throw", kind="array")
+        t2 = J.run_method(D2.obj, "throw", [u2], st=D2.st)
+        if t2.value is None and not t2.effects and False:
+            raise AnalysisError("second throw has no normal exit")
+        n = 0
+        for acc in accs:
+            r = read(acc, D2.st)
+            if r is None or r.value is None:
+                continue
+            v = J.snapshot(r.value, r.st)
+            cone = {x.id for x in walk([v])}
+            stale = D2.u.id in cone
+            n += 1
+            ck.ob("R02.9", f"after a second throw, {acc}() describes the second throw (no value of the first throw's "
+                  "events survives in it)", not stale and u2.id in cone, v, f"RegionGeom.{acc}",
+                  "depends on the first throw's random numbers" if stale else "",
+                  construct=f"RegionGeom.{acc}: stale after a second throw")
+        s2 = J.input("distance along the trajectory (second)", kind="array")
+        r = J.run_method(D2.obj, "find_lat_long_along_traj", [s2], st=D2.st)
+        if r.value is not None:
+            v = J.snapshot(r.value, r.st)
+            cone = {x.id for x in walk([v])}
+            n += 1
+            ck.ob("R02.9", "after a second throw, the point along the trajectory is computed from the second throw's "
+                  "events only", D2.u.id not in cone and s1.id not in cone and u2.id in cone, v,
+                  "RegionGeom.find_lat_long_along_traj",
+                  "depends on the first throw's random numbers" if D2.u.id in cone else "",
+                  construct="RegionGeom.find_lat_long_along_traj: stale after a second throw")
+        ck.floor("R02.9", n, 10, "accessors read after a second throw")
+    ck.guard(rethrow, "R02.9")
 
     # ---------------------------------------------------------------- R02.4 units
     def units():
